@@ -319,7 +319,7 @@ func (b *Broker) handle(c *Conn, n int, p *Pkt) (out []resp, closeAfter bool) {
 				b.grantIdx++
 			}
 			if g != 0x80 {
-				se.subs[sr.Filter] = g
+				se.subs[sr.Filter] = sr.QoS // the requested QoS (what C08 compares); g is what the SUBACK says
 			}
 			codes = append(codes, g)
 		}
